@@ -324,7 +324,7 @@ fn rnd(s: &mut u64) -> u64 {
 /// Larger graphs sampled pseudo-randomly (deterministic seeds): 5..=9 nodes, random edges under a random numbering (so edges go in both
 /// index directions), multi-edges, sometimes a cycle, up to two post-state readers, several solutions with different predicates.
 fn sampled(ctx: &Ctx) {
-    let count = if ctx.thorough { 20_000u64 } else { 2_500 };
+    let count = if ctx.thorough { 20_000u64 } else { 6_000 };
     for seed in 1..=count {
         let id = format!("sampled/{seed}");
         if !ctx.want(&id) {
@@ -456,7 +456,7 @@ fn sampled(ctx: &Ctx) {
 /// Longer post-state ranges: 5..=9 keys of 1..=3 words incl. double carries, several contracts, pre- and post-state reads in one program.
 fn long_ranges(ctx: &Ctx) {
     let starts: Vec<Words> = vec![vec![3], vec![0, Word::MAX - 3], vec![1, Word::MAX, Word::MAX - 2], vec![Word::MAX, Word::MAX, Word::MAX - 6], vec![-1, Word::MAX, Word::MAX - 1], vec![Word::MAX - 4]];
-    let count = if ctx.thorough { 6000u64 } else { 900 };
+    let count = if ctx.thorough { 6000u64 } else { 2000 };
     for seed in 1..=count {
         let id = format!("long-range/{seed}");
         if !ctx.want(&id) {
